@@ -117,6 +117,8 @@ func scopesValid(thorough bool) []Scope {
 		Scope{Name: "R-half-2:WebMercatorQuad-z17", GS: realGS("WebMercatorQuad", 17, 2, 550000.1, 6800000.2), Spec: lat.Spec{Points: lat.Window(2, 2, 2), MaxK: k(3, 5), Valid: true}, IDSets: [][]int{{17}}, Cfgs: keepCfgs},
 		Scope{Name: "R-multi:NetherlandsRDNewQuad-z12-14", GS: realGS("NetherlandsRDNewQuad", 14, 2, 20000.3, 380000.7), Spec: lat.Spec{Points: scale(lat.Window(2, 2, 2), 4), MaxK: k(3, 4), Valid: true}, IDSets: [][]int{{12, 13, 14}, {14}, {12, 14}}, Cfgs: keepCfgs},
 	)
+	// families of larger polygons (pinched necks with holes, lake + ditch, C-shapes): see families.go
+	scs = append(scs, familyScopes(thorough)...)
 	if thorough {
 		scs = append(scs,
 			Scope{Name: "L-holes-3", GS: synthGS(0, 2, [2]int64{6, 6}), Spec: lat.Spec{Points: lat.Window(3, 3, 2), MaxK: 4, Valid: true, MaxHoles: 1, HoleMaxK: 3}, IDSets: one, Cfgs: keepCfgs},
